@@ -4,7 +4,7 @@ open Oslo Oslo.Units Oslo.Proto
 
 /-
 Requests (TAB separated, text fields hex-encoded UTF-8, "-" = empty):
-  s2b   <unit_system> <text> <0|1 return_int>
+  s2b   <unit_system> <text> <0|1|d>    the flag is the truth value of return_int, d = argument omitted
   s2bx  <text> <0|1>              unit_system is any value that is not a str
   s2bd  <text> <0|1>              unit_system omitted (default of the live signature)
   qemu  <details>                 QemuImgInfo._extract_bytes
@@ -48,27 +48,25 @@ def showQemu (d : List Char) (r : Except Err Outcome) : String :=
   | .viaS2b text => showRes r ++ ";" ++ showS2b text (stringToBytes ['I', 'E', 'C'] text false)
   | .done _ => showRes r
 
+def flagOf : String → Option FlagArg
+  | "0" => some (.obj false)
+  | "1" => some (.obj true)
+  | "d" => some .omitted
+  | _ => none
+
+def s2bReply (a : SysArg) (text fl : String) : String :=
+  match unhexChars text, flagOf fl with
+  | some text, some f => showS2b text (stringToBytesCall a text f)
+  | _, _ => "bad-request"
+
 def handle : List String → String
-  | ["s2b", sys, text, ri] =>
-    match unhexChars sys, unhexChars text, ri with
-    | some sys, some text, "0" => showS2b text (stringToBytes sys text false)
-    | some sys, some text, "1" => showS2b text (stringToBytes sys text true)
-    | _, _, _ => "bad-request"
-  | ["s2bx", text, ri] =>        -- unit_system is a value that is not a str
-    match unhexChars text, ri with
-    | some text, "0" => showS2b text (stringToBytesArg .other text false)
-    | some text, "1" => showS2b text (stringToBytesArg .other text true)
-    | _, _ => "bad-request"
-  | ["s2bt", text, ri] =>        -- unit_system is a tuple whose length is not 1
-    match unhexChars text, ri with
-    | some text, "0" => showS2b text (stringToBytesArg .badTuple text false)
-    | some text, "1" => showS2b text (stringToBytesArg .badTuple text true)
-    | _, _ => "bad-request"
-  | ["s2bd", text, ri] =>        -- unit_system omitted
-    match unhexChars text, ri with
-    | some text, "0" => showS2b text (stringToBytesArg .omitted text false)
-    | some text, "1" => showS2b text (stringToBytesArg .omitted text true)
-    | _, _ => "bad-request"
+  | ["s2b", sys, text, fl] =>
+    match unhexChars sys with
+    | some sys => s2bReply (.str sys) text fl
+    | none => "bad-request"
+  | ["s2bx", text, fl] => s2bReply .other text fl        -- unit_system is a value that is not a str
+  | ["s2bt", text, fl] => s2bReply .badTuple text fl     -- unit_system is a tuple whose length is not 1
+  | ["s2bd", text, fl] => s2bReply .omitted text fl      -- unit_system omitted
   | ["qemu", details] =>
     match unhexChars details with
     | some d => showQemu d (extractBytes d)
